@@ -298,8 +298,20 @@ impl ElfLinker {
                             )))
                         }
                     };
-                    self.memory
-                        .set32(reloc.r_offset + elf.base_address(), value)?;
+                    // R_386_32 is S + A, and i386 REL entries keep the addend in place
+                    let addend = match self.memory.get32(reloc.r_offset + elf.base_address()) {
+                        Some(addend) => addend,
+                        None => {
+                            return Err(Error::Custom(format!(
+                                "Invalid address for R_386_32 {:?}:{:x}",
+                                self.filename, reloc.r_offset,
+                            )))
+                        }
+                    };
+                    self.memory.set32(
+                        reloc.r_offset + elf.base_address(),
+                        value.wrapping_add(addend),
+                    )?;
                 }
                 goblin::elf::reloc::R_386_GOT32 => {
                     return Err(Error::Custom("R_386_GOT32".to_string()))
